@@ -58,6 +58,16 @@ func (st *State) enterLoopHeader(fr *Frame, from, target *ssa.BasicBlock, li *lo
 				st.setArr(nm, "(Array Int Int)", store(arr, idx.C[0], val.C[0]))
 			}
 		}
+		if spec != nil {
+			for i, cl := range spec.After {
+				sc := st.specCtx(fr, fmt.Sprintf("%s loop %d afterbody %s", fnName, ord, cl.Label))
+				label := cl.Label
+				if label == "" {
+					label = fmt.Sprintf("after%d", i+1)
+				}
+				st.oblige("loop-body", fmt.Sprintf("%s@%s.loop%d", label, fnName, ord), cl.Props, sc.evalBool(cl.Expr), target.Instrs[0].Pos())
+			}
+		}
 		evalInv("inv-preserve", true)
 		return false
 	}
@@ -65,6 +75,7 @@ func (st *State) enterLoopHeader(fr *Frame, from, target *ssa.BasicBlock, li *lo
 		e.unsupportedf("loop header %d of %s entered twice on one path", target.Index, fnName)
 	}
 	fr.cut[target] = true
+	fr.loopEntry[ord] = st.snapshot()
 	evalInv("inv-init", true)
 	// havoc everything the loop may modify
 	pats := e.writeSet(fr.fn, li.body[target])
